@@ -52,11 +52,14 @@ def run(ctx):
         ctx.count(f"interfaces={n}")
         ctx.count("complex" if cplx else "real")
         # ---- oracle
-        if not rel(rb, b_rev, 1e-9):
+        if not rel(rb, b_rev, 1e-7):
             ctx.violate(f"reverse beamspread {rb} differs from the beamspread of the reversed path {b_rev}", cj, {"kind": "rev_beamspread"})
         for unit in ("stress", "displacement"):
             rt, want = vals[unit][1], tvals[unit]
-            if (rt is None) != (want is None) or (rt is not None and not rel(rt, want, 1e-9)):
+            # 1e-7: close to a critical angle arcsin amplifies the rounding of the Snell-exact geometry (1e-16) by 1/sqrt(1 - x^2) and
+            # a coefficient that nearly vanishes there is a difference of nearly equal terms; measured worst case over the
+            # thorough sweeps 1.1e-9 (a false alarm at the former 1e-9, seed 2), typical 1e-13
+            if (rt is None) != (want is None) or (rt is not None and not rel(rt, want, 1e-7)):
                 ctx.violate(f"reverse transmission-reflection ({unit}) {rt} differs from the direct product on the reversed path {want}", cj, {"kind": "rev_transrefl", "unit": unit})
         # attenuation: same in both directions (frequency-dependent laws on the two materials)
         att = None
